@@ -184,25 +184,37 @@ func (s String) Has(value Value) bool {
 }
 
 func (s String) with(at int, char rune) Set {
-	i := s.index(at)
+	i := at - s.offset
 	switch {
 	case 0 <= i && i < len(s.s) && s.s[i] == char:
 		return s
-	case i == len(s.s):
-		return String{
-			s:      append(append(make([]rune, 0, 1+len(s.s)), s.s...), char),
-			offset: s.offset,
-			holes:  s.holes,
+	case 0 <= i && i < len(s.s) && s.s[i] < 0:
+		// Fill a hole.
+		str := make([]rune, len(s.s))
+		copy(str, s.s)
+		str[i] = char
+		return String{s: str, offset: s.offset, holes: s.holes - 1}
+	case i >= len(s.s):
+		// Append, leaving holes for any skipped positions.
+		str := make([]rune, i+1)
+		copy(str, s.s)
+		for j := len(s.s); j < i; j++ {
+			str[j] = -1
 		}
-	case at == s.offset-1:
-		return String{
-			s:      append(append(make([]rune, 0, 1+len(s.s)), char), s.s...),
-			offset: s.offset - 1,
-			holes:  s.holes,
+		str[i] = char
+		return String{s: str, offset: s.offset, holes: s.holes + i - len(s.s)}
+	case i < 0:
+		// Prepend, leaving holes for any skipped positions.
+		str := make([]rune, len(s.s)-i)
+		str[0] = char
+		for j := 1; j < -i; j++ {
+			str[j] = -1
 		}
+		copy(str[-i:], s.s)
+		return String{s: str, offset: at, holes: s.holes - i - 1}
 	}
-	// TODO: Support adding holes and doubling up chars, removing the need to
-	// call newGenericSetFromSet here.
+	// TODO: Support doubling up chars, removing the need to call
+	// newGenericSetFromSet here.
 	return newGenericSetFromSet(s).With(NewStringCharTuple(at, char))
 }
 
